@@ -15,7 +15,8 @@ CORR   system histories on the real Bert-E (mock host + real git, lib/sysworld.p
        The model does not decide the gates: the outcome class is taken from the job status (table STAGE below);
        the gate of check_integration_branches IS modelled and checked in both directions.
        Harness-side observation (no change to /repo): gwf.check_integration_branches is wrapped to read the
-       effective options the job computed, queueing.close_queued_pull_request to read which pull requests a
+       effective options the job computed, gwf._handle_pull_request to read which pull request an event ended
+       up evaluating, queueing.close_queued_pull_request to read which pull requests a
        queue evaluation merged, mock.Repository.get_pull_requests to read the states the host reported at
        look-up time (the mock derives MERGED lazily from git ancestry: an input of the model, HostMerged).
 Monitors (ctx.violation, written from the statement, lib/mon_c19.py) on the real dumps:
@@ -171,6 +172,17 @@ ERR_STATUS = {'ParentNotFound': {'ParentPullRequestNotFound'}, 'PrNotFound': {'E
               'OutOfFuel': {'RecursionError'}}
 
 
+_KNOWN = []
+
+
+def known_statuses():
+    if not _KNOWN:
+        from bert_e import exceptions as ex
+        names = set(n for n, c in vars(ex).items() if isinstance(c, type) and issubclass(c, Exception))
+        _KNOWN.append(names | {'OK', 'NOTDONE', 'NoSuchRef'})
+    return _KNOWN[0]
+
+
 def check_stage_table():
     """Fail closed when _handle_pull_request no longer has the stage order the table was derived from."""
     src = open(os.path.join(core.REPO, 'bert_e/workflow/gitwaterflow/__init__.py')).read()
@@ -259,12 +271,12 @@ def enc_cascade(vtable):
 
 # ---------------------------------------------------------------------------------------------- observation
 
-OBS = {'gate': [], 'closes': [], 'snapshots': []}
+OBS = {'gate': [], 'closes': [], 'snapshots': [], 'evaluated': []}
 _INSTALLED = [False]
 
 
 def install_observers():
-    """Wrap three functions of the real code (in this process only) to READ what the job computed."""
+    """Wrap four functions of the real code (in this process only) to READ what the job computed."""
     if _INSTALLED[0]:
         return
     import bert_e.workflow.gitwaterflow as gwf
@@ -284,6 +296,12 @@ def install_observers():
             OBS['gate'].append({'error': traceback.format_exc()[-300:]})
         return orig_check(job)
     gwf.check_integration_branches = check_integration_branches
+    orig_handle = gwf._handle_pull_request
+
+    def _handle_pull_request(job):
+        OBS['evaluated'].append(int(job.pull_request.id))
+        return orig_handle(job)
+    gwf._handle_pull_request = _handle_pull_request
     orig_close = queueing.close_queued_pull_request
 
     def close_queued_pull_request(job, pr_id, cascade):
@@ -332,6 +350,10 @@ def check_job(world, ev, before, rec, after, model, out, jobinfo):
     out['hist']['event:%s' % ev['e']] = out['hist'].get('event:%s' % ev['e'], 0) + 1
     if ev['e'] == 'drained':
         return
+    if status not in known_statuses():
+        # not a message / control-flow class of bert_e.exceptions: the job crashed
+        out['mismatch'].append({'function': 'job crashed (status is not a Bert-E message class)',
+                                'input': {'event': ev, 'status': status}, 'impl': status, 'model': 'a Bert-E status'})
     vtable = mon.version_table(before['refs'])
     cfg = world.cfg
     # ---------------- the model's event
@@ -374,7 +396,11 @@ def check_job(world, ev, before, rec, after, model, out, jobinfo):
     inp = {'event': ev, 'status': status, 'outcome_class': oc, 'kind': kind, 'gate_inputs': gate,
            'always_prs': cfg['always_prs'], 'always_branches': cfg['always_branches']}
     if model is not None:
-        ans, chk = model.batch([req, 'check ' + enc_world(post)])
+        ans, chk, tgt = model.batch([req, 'check ' + enc_world(post), 'target %s %s %s' % (cfgbits, enc_world(pre), mev)])
+        seen = str(obs['evaluated'][-1]) if obs['evaluated'] else '-'
+        if tgt != seen:
+            out['mismatch'].append({'function': 'evaluated_pr (which pull request the event is handled as)',
+                                    'input': inp, 'impl': seen, 'model': tgt})
         if ans.startswith('OK '):
             mprs, mws, _ = dec_world(ans)
             if (mprs, mws) != want:
@@ -400,14 +426,12 @@ def check_job(world, ev, before, rec, after, model, out, jobinfo):
     if not mon.one_to_one(pre):     # reported when it appears, not again after every later job
         viol += v11
     # decline clause
-    declined_pr = None
     if status == 'PullRequestDeclined':
         pid = ev.get('pr') if ev['e'] == 'job_pr' else None
         p = next((q for q in pre['prs'] if q['id'] == pid), None)
         if p is not None and p['robot']:
             p = next((q for q in pre['prs'] if q['id'] == p['parent']), None)
         if p is not None and not p['robot'] and p['state'] == 'DECLINED':
-            declined_pr = p
             viol += mon.decline_clause(pre, post, p, vtable)
             out['hist']['clause:decline'] = out['hist'].get('clause:decline', 0) + 1
     # merge clause
@@ -679,7 +703,7 @@ def _worker(args):
             jobs = [j for j in real_jobs if j['event_index'] is not None]
         out['history'] = h
         if not out['mismatch'] and replay_history is None:
-            run_twins(h, jobs, rng, out, 1 if quick else 2)
+            run_twins(h, jobs, rng, out, 1)
         elif replay_history is not None and replay_history.get('twins', True):
             run_twins(h, jobs, rng, out, 3)
     except Exception:
@@ -701,6 +725,9 @@ def corpus():
 
 def _collect(ctx, results):
     n_hist = 0
+    # violations outside the known same-source situation are reported first (check.py replays the first one)
+    results = sorted(results, key=lambda r: (any(v['detail'].get('same_source') for v in r['violations']),
+                                             str(r['family']).startswith('corpus:')))
     for r in results:
         n_hist += 1
         ctx.evaluations += r['jobs']
@@ -730,12 +757,37 @@ def _collect(ctx, results):
     ctx.traces_validated += sum(r['jobs'] for r in results)
 
 
+def kernel_cross_check(ctx):
+    """The extracted binary against Coq's own evaluator: Example c19_ex_run (Proofs/C19Proofs.v) computes, by
+    vm_compute, that this run ends in a world with 5 pull requests and 5 branches."""
+    def pr(i, robot, src, dst, par):
+        return {'id': i, 'robot': robot, 'src': src, 'dst': dst, 'state': 'OPEN', 'parent': par, 'title': par}
+    b1, f2 = 'bugfix/TEST-1', 'feature/TEST-2'
+    w = {'prs': [pr(1, False, ('S', b1), ('D', '4.3'), None), pr(2, True, ('W', '5.1', b1), ('D', '5.1'), 1),
+                 pr(3, True, ('W', '10.0', b1), ('D', '10.0'), 1), pr(4, False, ('S', f2), ('D', '5.1'), None)],
+         'branches': [('W', '5.1', b1), ('W', '10.0', b1), ('S', b1), ('S', f2)]}
+    casc = enc_cascade({'4.3': ['4.3', '5.1', '10.0'], '5.1': ['5.1', '10.0'], '10.0': ['10.0']})
+    evs = ['PR 4 %s 000 CREATED', 'PR 2 %s 000 CREATED', 'PR 2 %s 000 CREATED',
+           'COMMIT ' + enc_name(('W', '10.0', f2)) + ' %s 000 CREATED', 'PR 1 %s 000 CONF:1', 'PR 4 %s 000 CREATED',
+           'PR 5 %s 000 CREATED']
+    ans = ctx.model.batch(['run 110 %s %s' % (enc_world(w), ' // '.join(e % casc for e in evs))])[0]
+    ok = ans.startswith('OK ')
+    if ok:
+        prs, _ws, names = dec_world(ans)
+        ok = len(prs) == 5 and len(names) == 5
+    if not ok:
+        ctx.mismatch({'example': 'c19_ex_run'}, '5 pull requests, 5 branches (vm_compute)', ans,
+                     'extracted model vs Coq evaluator')
+
+
 def run(ctx):
     check_stage_table()
     exe = ctx.model.exe if ctx.model is not None else None
     if exe is None:
         ctx.notes.append('extracted model unavailable: correspondence not run (monitors only)')
-    n = 48 if ctx.quick else 1000
+    else:
+        kernel_cross_check(ctx)
+    n = 48 if ctx.quick else 800
     fams = ['c19', 'c19', 'c19', 'lifecycle', 'c19', 'random']
     tasks = [(ctx.seed * 100000 + i, fams[i % len(fams)], exe, ctx.quick, None) for i in range(n)]
     for name, h in corpus():
